@@ -64,9 +64,6 @@ static COUNTER: std::sync::atomic::AtomicU64 = std::sync::atomic::AtomicU64::new
 
 impl B {
     fn settle(&mut self) {
-        if sched::release_parked() > 0 {
-            self.trace.push("  [scheduler] the suspended task continues".to_string());
-        }
         self.rt.block_on(sched::quiesce_parkable());
         let panics = sched::take_panics();
         for p in panics {
@@ -274,7 +271,11 @@ impl Model for B {
         };
         sched::begin_step(&script, park);
         match ev {
-            Ev::Resume => {}
+            Ev::Resume => {
+                // the suspended task continues (until then the other tasks, the node and the clock went on)
+                sched::release_parked();
+                self.trace.push("  [scheduler] the suspended task continues".to_string());
+            }
             Ev::Reply(id, h) => {
                 self.sim.with(|s| {
                     s.height = h;
@@ -341,6 +342,7 @@ impl Model for B {
 
     fn finish(&mut self) {
         if sched::parked() > 0 {
+            sched::release_parked();
             self.settle();
         }
     }
